@@ -215,8 +215,41 @@ class Sim:
                 if key is not None:
                     cache[key] = resource
             wn.add_lexical_resource(resource, progress_handler=SimHandler)
+        elif route in ('dl-url', 'dl-project'):
+            self.raw_download(path, route)
         else:
             wn.add(path, progress_handler=SimHandler)
+
+    def raw_download(self, path, route, spec=None):
+        """wn.download() of a resource that is already in the download cache (no network):
+        by URL, or by project specifier through the project index."""
+        import re as _re
+        with open(os.path.expanduser(str(path)), 'rb') as fh:
+            data = fh.read()
+        spec = spec or getattr(self, '_dl_spec', None) or 'x:1'
+        pid, _, pver = spec.partition(':')
+        plain = bool(_re.fullmatch(r'[A-Za-z0-9.+-]+', pid)) and bool(
+            _re.fullmatch(r'[A-Za-z0-9.+-]+', pver))
+        url = 'https://example.invalid/releases/%s/%s' % (
+            ''.join(c if c.isalnum() else '_' for c in pid),
+            ''.join(c if c.isalnum() else '_' for c in pver) or 'none')
+        if route == 'dl-project' and plain:
+            try:
+                wn.config.add_project(pid, label='Project ' + pid, language='en', license='MIT')
+            except Exception:
+                pass
+            try:
+                wn.config.add_project_version(pid, pver, url=url)
+            except Exception:
+                pass
+            target = spec
+        else:
+            target = url
+        cache = wn.config.get_cache_path(url)
+        with open(cache, 'wb') as fh:
+            fh.write(data)
+        self.probe('download-route')
+        wn.download(target, progress_handler=SimHandler)
 
     def op_add(self, op):
         res = self.res[op['res']]
@@ -233,6 +266,7 @@ class Sim:
         W = self.W
         W.begin_op(budget=self.budget, record=bool(op.get('record')))
         self._arm(None if f6 else op.get('fault'))
+        self._dl_spec = res['lexicons'][0]
         self._mem_key = (op['res'], op.get('quote', '"')) if (
             route == 'mem' and not op.get('style') and not op.get('fault')) else None
         _, exc = self.call(self.raw_add, path, route)
@@ -249,6 +283,26 @@ class Sim:
                                          'reported success and changed the database',
                                          {'op': op, 'installed': got})
                 fired = fired + ['F6-torn-input-file']
+            if op.get('repair') and exc is not None and route != 'mem' \
+                    and not route.startswith(('tar', 'tgz', 'txz')) and os.path.isfile(
+                        self._resource_file(path)):
+                # the copy completes: the SAME file is rewritten in place (nothing is created
+                # or renamed, so no directory changes) and the same path is supplied again
+                with open(self._resource_file(path), 'r+b') as fh:
+                    fh.seek(0)
+                    fh.write(data)
+                    fh.truncate()
+                W.begin_op(budget=self.budget)
+                _, exc2 = self.call(self.raw_add, path, route)
+                W.end_op()
+                if exc2 is not None:
+                    raise self.violation('add-raises', 'add of a repaired file (rewritten in '
+                                         'place after a torn copy was rejected) raised %s'
+                                         % type(exc2).__name__,
+                                         {'exc': repr(exc2), 'op': op})
+                self.probe('torn-file-repaired-in-place')
+                fired = []
+                exc = None
         W.set_batch(1000)
         W.short_reads = False
         todo = self.m.plan_add(res['lexicons'])
@@ -282,6 +336,16 @@ class Sim:
             self.probe('add-all-skipped')
         W.log(step=self.step, outcome='ok', installed=list(self.m.installed))
 
+    @staticmethod
+    def _resource_file(path):
+        """The resource file behind a supplied path (the file itself, or the one inside a
+        package directory)."""
+        if os.path.isdir(path):
+            for n in sorted(os.listdir(path)):
+                if n.endswith(('.xml', '.tsv')) and not n.startswith(('notes', 'mapping')):
+                    return os.path.join(path, n)
+        return path
+
     def op_add_ili(self, op):
         f = self.ilif[op['file']]
         path, _ = self.materialise_ili(f, op.get('route', 'xml'))
@@ -289,7 +353,10 @@ class Sim:
         W = self.W
         W.begin_op(budget=self.budget)
         self._arm(op.get('fault'))
-        _, exc = self.call(wn.add, path, progress_handler=SimHandler)
+        if op.get('route') == 'dl-url':
+            _, exc = self.call(self.raw_download, path, 'dl-url', 'ili-%s:1' % f['name'])
+        else:
+            _, exc = self.call(wn.add, path, progress_handler=SimHandler)
         fired = W.end_op()
         W.set_batch(1000)
         self.last = {'exc': exc, 'fired': fired}
